@@ -64,7 +64,11 @@ type Scenario struct {
 	// sends its evaluations one block after its commitment, so that the keyper under test reads
 	// blocks whose only DKG event is a PolyEval (then an Accusation, an Apology ...) and every
 	// handler's effect has to reach the database through its own block transaction
-	Split     bool   `json:"split,omitempty"`
+	Split bool `json:"split,omitempty"`
+	// LateKey: party 2 checks in (publishes its encryption key) only in the block after the eon
+	// started, so that the keyper under test queues its evaluations in two rows with the same
+	// description ("poly eval (eon=N)"): one when it starts dealing, one when the key arrives
+	LateKey   bool   `json:"late_key,omitempty"`
 	SchedSeed uint64 `json:"sched_seed"`
 }
 
@@ -105,6 +109,8 @@ type trace struct {
 	groups    []group
 	winMsg    int64 // excluded-later: database message count / broadcasts of the keyper under test
 	winBc     int   // when keyper set 2 was announced (the window the quick tier sweeps starts there)
+	winEndMsg int64 // late-key: end of the window (0: open)
+	winEndBc  int
 }
 
 // one loop iteration of the keyper under test, as operations of Model/Outbox.v
@@ -456,6 +462,7 @@ func execute(c Case, e *env) (*trace, error) {
 		evalSent               bool
 	}
 	bz := map[uint64]*byzEon{}
+	lateDone := false
 	// excluded-later: keyper set 1 = {0,1,2} with threshold 3; party 2 withholds in the first eon of
 	// set 1 and everybody votes "failed", so shuttermint starts a new eon for set 1; while that key
 	// generation runs, keyper set 2 = {1,2}, which excludes the keyper under test, is accepted.
@@ -464,8 +471,21 @@ func execute(c Case, e *env) (*trace, error) {
 	excl := c.S.Name == "excluded-later"
 	thr1 := thrOf(c.S)
 	byzAct := func(open int64) {
-		if open == 3 {
+		if open == 3 && !c.S.LateKey {
 			rig.SubmitAs(2, shmsg.NewCheckIn(rig.Parties[2].ValKey, &rig.Parties[2].Cfg.GetEncryptionKey().PublicKey))
+		}
+		if c.S.LateKey && len(rig.Eons()) > 0 {
+			S := rig.Eons()[0].Start
+			if !lateDone && open == S+1 {
+				lateDone = true
+				tr.winMsg = rig.Parties[kut].Srv.MsgCount()
+				tr.winBc = rig.Chain.PerName[rig.Parties[kut].Name]
+				rig.SubmitAs(2, shmsg.NewCheckIn(rig.Parties[2].ValKey, &rig.Parties[2].Cfg.GetEncryptionKey().PublicKey))
+			}
+			if tr.winEndMsg == 0 && open == S+6 {
+				tr.winEndMsg = rig.Parties[kut].Srv.MsgCount()
+				tr.winEndBc = rig.Chain.PerName[rig.Parties[kut].Name]
+			}
 		}
 		firstOf1 := uint64(0)
 		for _, ei := range rig.Eons() {
@@ -1241,7 +1261,7 @@ func main() {
 	run := vh.Start("Verif.Corr.C08", 12)
 	run.SetPreamble("From Verif Require Import Model.DKGPure Model.DKGDriver Model.Outbox Corr.C07 Corr.C08.\nOpen Scope N_scope.")
 	defer run.Finish()
-	run.Rule = "a complete DKG run of three keypers (one Byzantine party that makes the keyper under test accuse, be accused and apologise) on real keyper stacks, five schedules (plain, fork, second config, excluded-later: a restarted key generation of a set with the keyper under test during which a newer set without it is accepted, split: every transaction of the other honest keyper in a block of its own, so that blocks carry a single PolyEval / Accusation / Apology); after every loop iteration of the keyper under test its cache is compared with a fresh load of a copy of its database; per case one or two crash points of the keyper under test: before database message k, after the commit carried by message k was applied, before / after its b-th broadcast reached shuttermint; quick: every database message next to a begin/commit, every 9th other message, every broadcast; thorough: every database message, every broadcast and 2000 sampled pairs; non-trivial = the crash happened; distinct by the JSON rendering of the case"
+	run.Rule = "a complete DKG run of three keypers (one Byzantine party that makes the keyper under test accuse, be accused and apologise) on real keyper stacks, six schedules (plain, fork, second config, excluded-later: a restarted key generation of a set with the keyper under test during which a newer set without it is accepted, late-key: party 2's encryption key arrives a block after the eon started so that two outbox rows carry the same description, split: every transaction of the other honest keyper in a block of its own, so that blocks carry a single PolyEval / Accusation / Apology); after every loop iteration of the keyper under test its cache is compared with a fresh load of a copy of its database; per case one or two crash points of the keyper under test: before database message k, after the commit carried by message k was applied, before / after its b-th broadcast reached shuttermint; quick: every database message next to a begin/commit, every 9th other message, every broadcast; thorough: every database message, every broadcast and 2000 sampled pairs; non-trivial = the crash happened; distinct by the JSON rendering of the case"
 
 	scenarios := []Scenario{
 		{Name: "dkg", PhaseLen: 7, Byzantine: true, SchedSeed: 11},
@@ -1249,6 +1269,7 @@ func main() {
 		{Name: "second-config", PhaseLen: 7, Byzantine: true, SchedSeed: 13},
 		{Name: "dkg", PhaseLen: 9, Byzantine: true, Split: true, SchedSeed: 14},
 		{Name: "excluded-later", PhaseLen: 7, SchedSeed: 15},
+		{Name: "dkg", PhaseLen: 7, Byzantine: true, LateKey: true, SchedSeed: 16},
 	}
 	var cases []Case
 	if run.Replay != "" {
@@ -1272,6 +1293,19 @@ func main() {
 			return
 		}
 		twins[scenarioKey(r.c.S)] = r.tr
+		if r.c.S.LateKey {
+			// the schedule must make the keyper queue two rows with the same description
+			n := 0
+			for _, q := range r.tr.queued {
+				if strings.HasPrefix(q.Desc, "poly eval") {
+					n++
+				}
+			}
+			if n < 2 {
+				run.Violate(vh.Violation{Key: "C08:rig-failure", What: fmt.Sprintf("the late-key schedule queued %d poly-eval rows, expected two with the same description", n), Case: r.c})
+				return
+			}
+		}
 		if r.c.S.Name == "excluded-later" {
 			// the schedule must contain its window: an eon of set 1 restarted, set 2 (without the
 			// keyper under test) stored while it runs, and the keyper took part in it successfully
@@ -1317,13 +1351,34 @@ func main() {
 				ev = every * 3
 			}
 			pts := crashPoints(tw, ev, run.RNG)
-			if s.Name == "excluded-later" && !run.Thorough {
-				// quick tier: the crash points after keyper set 2 was announced
+			if (s.Name == "excluded-later" || s.LateKey) && !run.Thorough {
+				// quick tier: the crash points of the schedule's window (after keyper set 2 was
+				// announced / from the late check-in to a few blocks after it)
 				var w []Crash
 				for _, p := range pts {
-					if (strings.HasPrefix(p.Kind, "db") && p.At >= tw.winMsg) || (strings.HasPrefix(p.Kind, "bc") && p.At > int64(tw.winBc)) {
+					db, bc := strings.HasPrefix(p.Kind, "db"), strings.HasPrefix(p.Kind, "bc")
+					if db && p.At >= tw.winMsg && (tw.winEndMsg == 0 || p.At <= tw.winEndMsg) {
 						w = append(w, p)
 					}
+					if bc && p.At > int64(tw.winBc) && (tw.winEndBc == 0 || p.At <= int64(tw.winEndBc)) {
+						w = append(w, p)
+					}
+				}
+				pts = w
+			}
+			if si > 0 && !run.Thorough && s.Name != "excluded-later" && !s.LateKey {
+				// quick tier: the secondary full-length schedules keep every second database crash
+				// point (all broadcast crash points); the plain schedule and the thorough tier keep all
+				var w []Crash
+				k := 0
+				for _, p := range pts {
+					if strings.HasPrefix(p.Kind, "db") {
+						k++
+						if k%2 == 0 {
+							continue
+						}
+					}
+					w = append(w, p)
 				}
 				pts = w
 			}
